@@ -224,7 +224,7 @@ impl Proj {
         format!("cmd{}v{} {} -- {}", s.uid, s.ver, s.ins.join(" "), s.outs[..s.nexp].join(" "))
     }
     pub fn rsp_of(&self, s: &Step) -> Option<(String, String)> {
-        s.rsp.map(|v| (format!("{}.rsp", s.outs[0]), format!("rsp{} {}", v, s.ins.join("\n"))))
+        s.rsp.map(|v| (format!("{}.rsp", s.outs[0]), format!("{} {}", rsp_word(v), s.ins.join("\n"))))
     }
     pub fn depfile_of(&self, s: &Step) -> Option<String> {
         if s.deps == 1 {
@@ -379,7 +379,7 @@ impl Proj {
                     b += "  deps = msvc\n";
                 }
                 if let Some(v) = s.rsp {
-                    b += &format!("  rspfile = {}.rsp\n  rspfile_content = rsp{} $in_newline\n", s.outs[0], v);
+                    b += &format!("  rspfile = {}.rsp\n  rspfile_content = {} $in_newline\n", s.outs[0], rsp_word(v));
                 }
                 if st % 2 == 1 {
                     b += &format!("  description = step {}\n", s.uid);
@@ -449,6 +449,12 @@ impl Proj {
         files.insert(self.manifest.clone(), t);
         files
     }
+}
+
+/// First word of a response file of content version v: its length goes up and down with v, so that a rewritten
+/// response file is sometimes shorter than the one it replaces.
+pub fn rsp_word(v: u32) -> String {
+    format!("rsp{}{}", v, "x".repeat(((v as usize) * 5 + 9) % 12))
 }
 
 pub fn esc(p: &str) -> String {
